@@ -2,5 +2,5 @@
    ExtrOcamlBasic + ExtrOcamlString only; nat/Z stay inductive. *)
 From Coq Require Import Extraction ExtrOcamlBasic ExtrOcamlString.
 From LC Require Import Common MathDefs.
-Extraction "math_model.ml" nat_to_string val_math_env ana_math_env std_vars std_units rule_name site_name
+Extraction "math_model.ml" nat_to_string val_math_env_head ana_math_env std_vars std_units rule_name site_name
   site_certain pow_math_env exponent_unavailable stod_result_name enum_d1 enum_d2 enum_d3 arity_sweep m_math MATHML_NS CELLML_2_0_NS.
